@@ -231,6 +231,8 @@ def c12_span_agrees():
     assume = [z3.fpLEQ(ksmt.fpv(0.0), start), z3.fpLT(start, end), z3.fpLEQ(end, M), z3.fpLEQ(M, ksmt.fpv(TWO20))]
     claims = []
     for pc, env in tg_paths:
+        if "maxTimestamp" not in env:
+            raise ksmt.AnchorMissing("`maxTimestamp` computed before `newTG = Textgrid(...)` in Textgrid.eraseRegion")
         for name, pc2, nm in outs:
             claims.append((pc + pc2, z3.Not(z3.fpEQ(ksmt.to_fp(env["maxTimestamp"]), ksmt.to_fp(nm)))))
     return _solve(claims, {"start": start, "end": end, "M": M}, assume, 120)
